@@ -143,7 +143,7 @@ def _line_in_live_function(model, fi, line):
     return False
 
 
-def report_sinks(ctx, rule_of, sc: Scan, fi=None, categories=None, why_of=None, pass_only=()):
+def report_sinks(ctx, rule_of, sc: Scan, fi=None, categories=None, why_of=None, pass_only=(), line_filter=None):
     """Turn the sinks of a scan into obligations: one per (site, category); flagged sites are violations.
     `rule_of(category)` -> rule id or None (category not claimed by the calling property)."""
     model = ctx.model
@@ -164,6 +164,8 @@ def report_sinks(ctx, rule_of, sc: Scan, fi=None, categories=None, why_of=None, 
         # (a line outside the function that belongs to no live function is code of an expanded helper: it counts here)
         rule = rule_of(cat)
         if rule is None or (categories is not None and cat not in categories):
+            continue
+        if line_filter is not None and not line_filter(line):
             continue
         msgs = sorted(sc.flags.get((line, cat), ()))
         real = [m for m in msgs if '?bad' not in m]
